@@ -34,6 +34,7 @@ MODES1 = core.Raw('{"idle"}')
 INVS = ["TypeOK", "IdInjective", "StoredHasId", "ReadImplied"]
 PROPS = ["Isolation", "ReadsPure", "IdStable", "CrashBounded", "ReadResult", "IdReported", "AllOk"]
 KF_ALIAS = "C13-F1"
+MAX_REPLAYS = 12
 
 # ------------------------------------------------------------------------------------------ boundary pools
 
@@ -168,7 +169,7 @@ def simulate(wd, scope, length, want, tag, seed):
     k = consts(scope, PathLen=length)
     c = core.cfg(init="SimInit", next_="SimNext", constants=k, invariants=["TypeOK", "IdInjective", "PathDump"])
     r = core.run_tlc("Sim_Store", c, os.path.join(wd, "sim_" + tag), workers=1, simulate="num=%d" % want,
-                     extra=["-depth", str(length + 1), "-seed", str(seed)], coverage=False)
+                     extra=["-depth", str(length + 2), "-seed", str(seed)], coverage=False)
     if r.status != "ok":
         raise core.ToolError("simulation of Sim_Store failed: %s %s" % (r.status, r.violated))
     paths, seen = [], set()
@@ -238,11 +239,21 @@ def judge(out, cases, results, st, batch_of=None):
         msg = "%s store, naming %s: case %s diverges from Store.tla at call %s: expected %s, real store gave %s%s" % (
             cfg["store"], cfg["naming"], c["id"], d, json.dumps(exp), json.dumps(got),
             (" PANIC " + str(r.get("panic"))) if r.get("panic") else "")
-        pre = []
+        if len(out.violations) >= MAX_REPLAYS:
+            st["unrecorded"] = st.get("unrecorded", 0) + 1
+            continue
+        replay_cases = [c]
         if cfg["db"] == "shared" and batch_of is not None:
-            # the database was shared with the earlier cases of the batch: keep them in the replay
-            pre = [x for x in batch_of[:idx] if x["cfg"]["store"] == cfg["store"] and x["cfg"]["db"] == "shared"]
-        out.violation(msg, {"component": "Store", "cases": pre[-400:] + [c], "observed": r})
+            # the database was shared with the earlier cases of the batch.  Try the case alone on a fresh
+            # database first; only if that does not reproduce keep the batch prefix in the replay file.
+            solo = dict(c, cfg=dict(cfg, db="fresh"))
+            sr = harness([solo], core.workdir("C13_solo"), "solo")[0]
+            if sr.get("panic") or rp.first_diff(solo["acts"], sr.get("obs", []), INPUT_KEYS, IGNORE_OBS) is not None:
+                replay_cases = [solo]
+            else:
+                pre = [x for x in batch_of[:idx] if x["cfg"]["store"] == cfg["store"] and x["cfg"]["db"] == "shared"]
+                replay_cases = pre[-300:] + [c]
+        out.violation(msg, {"component": "Store", "cases": replay_cases, "observed": r})
 
 
 def to_events(case, res):
@@ -288,7 +299,7 @@ def run(tier, out):
         b3(tl, wd, (2, 2, 2, 1), MODES3, 0, "iso_keys")
         b3(tl, wd, (2, 2, 1, 2), MODES3, 0, "iso_vals")
         b3(tl, wd, (3, 1, 2, 1), MODES3, 0, "three_agents")
-        b3(tl, wd, (2, 2, 1, 1), MODES1, 4, "hist_2x2")
+        b3(tl, wd, (2, 2, 1, 1), MODES1, 3, "hist_2x2")
 
     # ---- B1: generate
     st = {"cases": 0, "steps": 0, "conform": 0, "rejected": 0, "known": 0}
@@ -311,7 +322,7 @@ def run(tier, out):
         if len(out.cov["samples"]) < 2:
             out.sample({"scope": dict(zip(("NA", "NI", "NK", "NV"), scope)),
                         "calls_with_expected_results": paths[len(paths) // 2][:10]})
-    sims = [((2, 2, 3, 2), 30, 250, "s2232")] if quick else [((2, 2, 3, 2), 40, 3000, "s2232"), ((3, 3, 3, 3), 60, 1500, "s3333")]
+    sims = [((2, 2, 3, 2), 30, 300, "s2232")] if quick else [((2, 2, 3, 2), 40, 3000, "s2232"), ((3, 3, 3, 3), 60, 800, "s3333")]
     for scope, length, want, tag in sims:
         paths = simulate(wd, scope, length, want, tag, core.seed())
         all_cases += make_cases(rng, paths, scope, tier, tag, 1, counter)
@@ -343,6 +354,11 @@ def run(tier, out):
         all_cases += g
         results += gr
     n_rocks = len(rk)
+    by_action = {}
+    for c in all_cases:
+        for a in c["acts"]:
+            key = "%s:%s" % (c["cfg"]["store"], a["k"] if a["k"] != "restart" else "restart/" + a["mode"])
+            by_action[key] = by_action.get(key, 0) + 1
     core.log("[C13] B1: %d cases (%d RocksDB, %d in-memory; %d calls; %d RocksDB cases over the open budget dropped) in %.1fs: "
              "conform=%d rejected=%d known=%d" % (len(all_cases), n_rocks, len(all_cases) - n_rocks, st["steps"], dropped,
                                                   time.time() - t0, st["conform"], st["rejected"], st["known"]))
@@ -384,7 +400,7 @@ def run(tier, out):
             in_memory_cases=len(all_cases) - n_rocks, state_graph_edges_all_replayed=edges_total,
             known_finding_cases=st["known"], p_trace_executions=tv_cases, p_trace_events=tv_events,
             kills=ks["kills"], kills_with_call_in_flight=ks["midrun"], kill_trace_events=ks["events"],
-            tlc_runs=tl.runs,
+            tlc_runs=tl.runs, replayed_calls_by_store_and_action=dict(sorted(by_action.items())),
             action_coverage={a: {"distinct": d, "taken": t} for a, (d, t) in sorted(tl.cov.items())},
             actions_never_taken=unvisited, exhaustive=True, model_drift=0,
             rule="every transition of the TLC state graphs of Store.tla (scopes listed in tlc_runs 'graph *') is executed on the "
@@ -393,6 +409,8 @@ def run(tier, out):
                      " and on RocksDB" if not quick else "; RocksDB executes a fixed fraction of the cover in the quick tier"),
             checker_cmd="tlc Store (INVARIANTS %s; PROPERTIES %s) + tlc MC_Store (EDGE dump) + tlc Sim_Store -simulate + "
                         "h_store store (RocksDB, in-memory) + tlc Trace_Store" % (" ".join(INVS), " ".join(PROPS)))
+    if not out.violations:
+        shutil.rmtree(wd, ignore_errors=True)       # scratch (databases, TLC output, case files)
     out.assumptions += [
         "calls on the stores are made sequentially (one agent task owns its node store); concurrent id_for on one plane is not explored",
         "an item is used as a value or as a map, switching only while it is empty (what the two stores do when kinds are mixed differs and is not constrained by the property)",
@@ -440,6 +458,10 @@ def one_kill(wd, j, case, delay):
         elapsed = time.time() - t0
         os.kill(p.pid, signal.SIGKILL)
     finally:
+        try:
+            p.kill()
+        except OSError:
+            pass
         p.wait()
         p.stdout.close()
         p.stderr.close()
